@@ -249,3 +249,31 @@ Lemma u64_wrap_breaks_uniqueness :
   let w3 := ma_mark_wrap w2 (2, 1%Z) None in
   mk_get w3 (0, 1%Z) = Some 0 /\ mk_get w3 (2, 1%Z) = Some 0 /\ sl_index w2 = 0 /\ sl_index w3 = 1.
 Proof. vm_compute. repeat split; reflexivity. Qed.
+
+(* exactly one target entity per record, i.e. per marked source entity *)
+Theorem c14_entity_count src nc d d' : Inv src -> ser_data_spec src nc d -> Permutation d d' ->
+  length (l_entities (sl_life (deserialize sl_empty d'))) = length d.
+Proof.
+  intros HI S P. destruct (round_trip_data src nc d d' HI S P) as [HI' [H1 [H2 _]]].
+  destruct S as [ND [S1 S2]].
+  set (tgt := deserialize sl_empty d') in *.
+  set (f := fun t => match mk_get tgt t with Some m => m | None => 0 end).
+  set (E := l_entities (sl_life tgt)).
+  assert (forall t, In t E -> exists m, mk_get tgt t = Some m /\ In m (map fst d)) as HE.
+  { intros t Hin. apply life_entities_alive in Hin. destruct (H2 t Hin) as [e [m [Ge Gt]]]. exists m. split; [assumption|].
+    destruct (S1 _ _ Ge) as [cs [Hc _]]. apply in_map_iff. exists (m, cs). auto. }
+  assert (NoDup (map f E)) as NF.
+  { apply (nodup_transfer (fun t => t) f); [|rewrite map_id; apply l_entities_nodup].
+    intros p q Hp Hq Efq. destruct (HE p Hp) as [m1 [G1 _]]. destruct (HE q Hq) as [m2 [G2 _]].
+    unfold f in Efq. rewrite G1, G2 in Efq. subst m2. apply (inv_unique tgt p q m1 HI'); assumption. }
+  assert (incl (map f E) (map fst d)) as I1.
+  { intros m Hin. apply in_map_iff in Hin. destruct Hin as [t [Ef Hin]]. destruct (HE t Hin) as [m' [G Hm]].
+    unfold f in Ef. rewrite G in Ef. subst m'. assumption. }
+  assert (incl (map fst d) (map f E)) as I2.
+  { intros m Hin. apply in_map_iff in Hin. destruct Hin as [[m' cs] [Em Hin]]. cbn [fst] in Em. subst m'.
+    destruct (S2 _ _ Hin) as [e [Ge _]]. destruct (H1 _ _ Ge) as [t Gt].
+    apply in_map_iff. exists t. split; [unfold f; rewrite Gt; reflexivity|].
+    apply life_entities_alive. apply mk_get_iff in Gt. apply Gt. }
+  pose proof (NoDup_incl_length NF I1) as L1. pose proof (NoDup_incl_length ND I2) as L2.
+  rewrite !map_length in L1. rewrite !map_length in L2. change (length E = length d). apply Nat.le_antisymm; assumption.
+Qed.
